@@ -65,6 +65,8 @@ class FprCheck(vlib.Check):
                     "SciPy pdist, NumPy arccos/dot/mean: IEEE double vs the model's Float (round-off band filtered, counted)"]
     assumptions = ["cases whose model answer changes under a 3e-14 A coordinate perturbation are within round-off of a decision threshold and are discarded (counted in distribution.margin_discarded)"]
 
+    huge_in = ("C02", "C03")
+
     def refs(self):
         return MG.all_refs()
 
@@ -73,8 +75,11 @@ class FprCheck(vlib.Check):
         rng = self.rng
         out = []
         refs = self.refs()
-        for _ in range(n):
+        for k in range(n):
             ref = rng.choice(refs)
+            if k == 1 and self.id in self.huge_in:
+                ref = MG.HUGE_REF          # the molecule of more than 256 heavy atoms, once per run
+                self.count("molecule>256-heavy-atoms")
             mol = MG.load_ref(ref)
             out.append((ref, rng.randrange(mol.GetNumConformers())))
         return out
